@@ -171,6 +171,14 @@ fn build_key_names(r: &Routing) -> Vec<Vec<u8>> {
     out.push(b"k0".to_vec());
     out.push(b"k1".to_vec());
     out.push(b"key two".to_vec());
+    // unusual but legal names: a router that looks inside the name (hash tags, prefixes, length)
+    // on one entry path only gives such a key two homes
+    out.push(b"{user:1}:visits".to_vec());
+    out.push(b"a{tag}z".to_vec());
+    out.push(b"{}".to_vec());
+    out.push(b"{t}".to_vec());
+    out.push("\u{43a}\u{43b}\u{44e}\u{447}".as_bytes().to_vec());
+    out.push(b"a-much-longer-key-name-that-exceeds-any-inline-buffer-0123456789-0123456789-0123456789".to_vec());
     out
 }
 
